@@ -90,8 +90,10 @@ func (e *Exec) checkAwardsModelFree(pre, post *AppState, h int64) {
 	for _, ah := range addrs {
 		got := new(big.Int).Sub(bal(post, ah), bal(pre, ah))
 		if got.Cmp(pre.Awards[ah]) != 0 {
-			if got.Cmp(pre.Awards[ah]) > 0 && feeEarners == 0 && denom == sdk.DefaultStakeDenom {
-				feeEarners++ // the previous proposer also receives the block's fees
+			if got.Cmp(pre.Awards[ah]) > 0 && feeEarners == 0 {
+				// the previous proposer also receives whatever the fee collector held in the stake denomination in
+				// force (after a change of that denomination plain transfers to the collector's address count too)
+				feeEarners++
 				continue
 			}
 			e.addViol(viol("C10", "award-recipient-exact", e.step, map[string]string{"model": "off"},
